@@ -565,7 +565,7 @@ import symtable
 NAME_PAIRS = [("myVar", "my_var"), ("myVar", "MY_VAR"), ("myVar", "my_Var"), ("MyVar", "myVar"), ("_myVar", "myVar"),
               ("Id", "id"), ("Class_", "class_"), ("var_1", "var_2"), ("a", "b"), ("x1", "X1"), ("_1x", "x"),
               ("é", "e"), ("naïve", "na_ve"), ("ABc", "a_bc"), ("a_b", "AB"), ("HTTPServer", "http_server"),
-              ("_", "x"), ("__t2", "_t2"), ("__x__", "x")]
+              ("_", "x"), ("__t2", "_t2"), ("__x__", "x"), ("sorted", "srt"), ("len", "n")]
 
 # closed programs; {A} is bound in the way the template's name says, {B} is the adversary
 TEMPLATES = {
@@ -607,6 +607,8 @@ TEMPLATES = {
     "ignore_in_renamed_func": "def {A}(values):\n    return sum(values) + 1  # pyrefact: ignore\ndef report():\n    return {A}([1, 2, 3]) * 2\nprint(report(), {A}([4]))\n",
     "ignore_on_class_use": "class {A}:\n    size = 4\ndef make():\n    return {A}()  # pyrefact: ignore\nprint(make().size, {A}.size)\n",
     "ignore_on_binding": "def scale(v):\n    {A} = 10  # pyrefact: ignore\n    y = v * {A}\n    return y + {A}\nprint(scale(2))\n",
+    "read_before_def": "{B}_ = {A}\ndef {A}(v):\n    return 'mine'\nprint({A}([2, 1]), {B}_ is {A})\n",
+    "read_before_def_func": "import builtins\ndef early():\n    return {A}([2, 1])\nfirst = early() if hasattr(builtins, '{A}') else None\ndef {A}(v):\n    return 'mine'\nprint(first, early())\n",
     "keyword_arg": "def f({A}=1):\n    return {A}\nprint(f({A}=2))\n",
     "func_name": "def {A}(v):\n    return v\nprint({A}(2))\n",
     "func_name_kw": "def {A}(v):\n    return v\n{B} = 3\nprint({A}(v={B}))\n",
